@@ -234,8 +234,10 @@ func SanitizeFP(fp string) string {
 		}
 	}
 	s := b.String()
-	if len(s) > 120 {
-		s = s[:120]
+	if len(s) > 100 {
+		// keep names short but unique
+		h := sha256.Sum256([]byte(fp))
+		s = s[:100] + "-" + hex.EncodeToString(h[:4])
 	}
 	return s
 }
